@@ -95,6 +95,10 @@ def check(ck):
         ck.ob("the object-type test names the schema's object type class", got == "tartiflette.types.object.GraphQLObjectType", f, f.node,
               construct="runtime:class", detail=str(got))
         possible_type_sets(ck, repo)
+    # "no null at a non-null position", "lists where lists are declared": the completion chain per declared type (C01.R9)
+    with ck.pinned("R8"):
+        from .c01 import _completion_chain
+        _completion_chain(ck, repo)
     with ck.rule("R6"):
         _never_raises(ck, repo)
     # "exactly the selected response keys": field collection keeps every node of every selected key once (C01.R1-R5)
